@@ -29,7 +29,7 @@ theorem crit_bit (f : UInt8) : ((f &&& 0x80) >>> 7 == 0) = !((f &&& 0x80) != 0) 
 
 /-- the walker on a known payload written with any flag octet: flags are ignored -/
 theorem chainStep_known (p : Payload) (fl : UInt8) (body tl : Bytes) (nx : UInt8) (hrt : PayloadRT p)
-    (hm : marshalPayload p = .ok body) (hlen : 4 + body.length ≤ 0xFFFF) :
+    (hsk : p.isSK = false) (hm : marshalPayload p = .ok body) (hlen : 4 + body.length ≤ 0xFFFF) :
     chainStep p.typeCode ([nx, fl] ++ put16 (UInt16.ofNat (4 + body.length)) ++ body ++ tl)
       = .ok (some p, nx, 4 + body.length) := by
   have hl : (UInt16.ofNat (4 + body.length)).toNat = 4 + body.length := ofNat_toNat_u16 _ (by omega)
@@ -47,6 +47,8 @@ theorem chainStep_known (p : Payload) (fl : UInt8) (body tl : Bytes) (nx : UInt8
   rw [if_neg h4, hl, if_neg (by len_omega)]
   go_steps
   rw [if_pos (knownType_typeCode p)]
+  rw [typeCode_ne_sk p hsk]
+  simp only [Bool.false_and, Bool.false_eq_true, if_false]
   go_steps
   have hbody : List.drop 4 (List.take (4 + body.length) ([nx, fl] ++ put16 v ++ body ++ tl)) = body := by
     simp only [put16, List.cons_append, List.nil_append, List.append_assoc]
@@ -119,7 +121,7 @@ theorem C13_chain (items : List Item) (bs : Bytes)
             simp only [Item.body] at hb
             show decodeChain p.typeCode ([firstItemType rest, f] ++ _ ++ body ++ tl) = _
             rw [decodeChain, dif_neg (by len_omega),
-              chainStep_known p f body tl (firstItemType rest) (hk p f (by simp)).1 hb (by omega)]
+              chainStep_known p f body tl (firstItemType rest) (hk p f (by simp)).1 (hk p f (by simp)).2 hb (by omega)]
             simp only
             rw [dif_pos (by len_omega), hd, ihr]
             simp only [anyCriticalUnknown, knownPayloads]
